@@ -334,6 +334,9 @@ func checkC05(c *Ctx) {
 			c.Rep.Fatal(err.Error())
 			return
 		}
+		if projReplay(c, raw, "definition") {
+			return
+		}
 		jb := c05Build(1, raw)
 		jb.Raw = raw
 		p := c.NewPool(1)
@@ -343,6 +346,8 @@ func checkC05(c *Ctx) {
 	}
 	p := c.NewPool(0)
 	scopeRuns(c, p, c05Build, func(j *Job, r *proto.Result) { c05Judge(c, j, r) })
+	// Project.tla: workspaces analysed as a project (entry file + what it requires), both modes
+	projectRuns(c, p, 0, "definition")
 	c.poolStats(p)
 	if surveyMode {
 		sv.dump()
